@@ -18,16 +18,20 @@ type Map = sync.Map
 
 // Mutex is a drop-in for sync.Mutex (zero value ready to use).
 type Mutex struct {
-	real sync.Mutex
-	held bool
+	real  sync.Mutex
+	held  bool
+	epoch int // execution in which held was set; a stale epoch means "left locked by an abandoned run"
 }
+
+func (m *Mutex) isHeld() bool { return m.held && m.epoch == sched.Epoch() }
 
 func (m *Mutex) Lock() {
 	switch sched.CurMode() {
 	case sched.ModeActive:
 		x := sched.Cur()
-		x.Yield(sched.Op{Kind: "lock", Obj: m, Enabled: func() bool { return !m.held }})
+		x.Yield(sched.Op{Kind: "lock", Obj: m, Enabled: func() bool { return !m.isHeld() }})
 		m.held = true
+		m.epoch = sched.Epoch()
 	case sched.ModeAborting:
 	default:
 		m.real.Lock()
@@ -39,10 +43,11 @@ func (m *Mutex) TryLock() bool {
 	case sched.ModeActive:
 		x := sched.Cur()
 		x.Yield(sched.Op{Kind: "trylock", Obj: m})
-		if m.held {
+		if m.isHeld() {
 			return false
 		}
 		m.held = true
+		m.epoch = sched.Epoch()
 		return true
 	case sched.ModeAborting:
 		return true
@@ -54,7 +59,7 @@ func (m *Mutex) TryLock() bool {
 func (m *Mutex) Unlock() {
 	switch sched.CurMode() {
 	case sched.ModeActive:
-		if !m.held {
+		if !m.isHeld() {
 			panic("vsync: unlock of unlocked mutex")
 		}
 		m.held = false
@@ -66,7 +71,7 @@ func (m *Mutex) Unlock() {
 }
 
 // Held reports the modelled state (for harness invariants).
-func (m *Mutex) Held() bool { return m.held }
+func (m *Mutex) Held() bool { return m.isHeld() }
 
 type waiter struct{ signaled bool }
 
@@ -89,7 +94,7 @@ func (c *Cond) Wait() {
 		c.waiters = append(c.waiters, w)
 		// release atomically with enqueueing, as sync.Cond does
 		if m, ok := c.L.(*Mutex); ok {
-			if !m.held {
+			if !m.isHeld() {
 				panic("vsync: Cond.Wait without holding L")
 			}
 			m.held = false
